@@ -1058,7 +1058,10 @@ func (c *Ctx) globalConstMap(e *an.Expr) (map[int64]int64, bool) {
 					return nil, false
 				}
 				kv, e1 := constant.Int64Val(constant.ToInt(k.Value))
-				vv, e2 := constant.Int64Val(constant.ToInt(v.Value))
+				vv, e2 := int64(0), true
+				if v.Value.Kind() == constant.Int || v.Value.Kind() == constant.Float {
+					vv, e2 = constant.Int64Val(constant.ToInt(v.Value))
+				} // values of another kind (strings, …): only the key set is of interest
 				if !e1 || !e2 {
 					return nil, false
 				}
